@@ -86,4 +86,9 @@ if __name__ == '__main__':
         # is on stdout by now, do not wait for such threads at interpreter exit
         _sys.stdout.flush()
         _sys.stderr.flush()
+        try:
+            import atexit as _atexit
+            _atexit._run_exitfuncs()          # scratch directories of the stand-ins are removed here
+        except BaseException:      # noqa
+            pass
         _os._exit(0)
